@@ -150,7 +150,7 @@ def modelRun (c : Case) (t : Toggles) (es : Entries) : TRes :=
   Sched.run t.defects t.perOccurrence (gateOf es) c.S c.doc c.opName c.vars c.world (Spec.Exec.fuelBound c.doc)
 
 /-- does the model under `t` print exactly the implementation's runs? (stops at the first difference) -/
-def matches (c : Case) (t : Toggles) (impl : List ImplRun) : Bool :=
+def agrees (c : Case) (t : Toggles) (impl : List ImplRun) : Bool :=
   c.scheds.length == impl.length &&
   (c.scheds.zip impl).all (fun p => runStr (modelRun c t p.1) == p.2.whole)
 
@@ -183,7 +183,7 @@ def serialEndsOK (tr : List TraceEv) : Bool :=
   let roots := tr.filter (·.path.isEmpty)
   let rec go : List TraceEv → Bool
     | a :: b :: rest => (!a.isEnd && b.isEnd && a.key == b.key) && go rest
-    | [a] => !a.isEnd   -- cancelled by its own error: cannot happen (a resolver ends before it can fail)
+    | [_] => false
     | [] => true
   go roots
 
